@@ -155,6 +155,19 @@ func genC09History(t *simrt.Tape) *History {
 	if splitA == len(a.Events) {
 		ops = append(ops, HOp{Kind: "login", S: 0})
 	}
+	// variant: the sshd stream runs ahead of the audit stream, so the login of the new sshd
+	// process (same PID) arrives while the earlier session is correlated but before its
+	// credential-disposal record has been processed
+	earlyB := false
+	if splitA < len(a.Events)-1 && t.Choose(3, "earlyB") == 0 {
+		// login A and A's LOGIN record are both in ops[:idx of CRED_DISP]; put login B right
+		// before A's CRED_DISP, separated in time so that both streams agree on the order
+		last := ops[len(ops)-1]
+		if last.Kind == "event" && last.S == 0 && last.E == len(a.Events)-1 {
+			ops = append(ops[:len(ops)-1], HOp{Kind: "sleep", Ms: 2000}, HOp{Kind: "login", S: 1}, HOp{Kind: "sleep", Ms: 2000}, last)
+			earlyB = true
+		}
+	}
 	// the earlier session has ended (both streams drained) before the PID is reused
 	ops = append(ops, HOp{Kind: "sleep", Ms: 5000})
 	phaseB := len(ops)
@@ -180,12 +193,12 @@ func genC09History(t *simrt.Tape) *History {
 	splitB := t.Choose(len(b.Events)+1, "splitB")
 	var bops []HOp
 	for i := range b.Events {
-		if i == splitB {
+		if i == splitB && !earlyB {
 			bops = append(bops, HOp{Kind: "login", S: 1})
 		}
 		bops = append(bops, HOp{Kind: "event", S: 1, E: i})
 	}
-	if splitB == len(b.Events) {
+	if splitB == len(b.Events) && !earlyB {
 		bops = append(bops, HOp{Kind: "login", S: 1})
 	}
 	if stray {
@@ -285,6 +298,7 @@ func scnC16L1(rc *RunCtx) {
 	var tl []arrival
 	type cl struct{ at, cutAbs int } // cut-off absolute in half-seconds (2*s+1)
 	var cls []cl
+	extra := map[int]int{}
 	horizon := 40
 	for si := 0; si < n; si++ {
 		pid := 6000 + si*11
@@ -305,6 +319,14 @@ func scnC16L1(rc *RunCtx) {
 			tl = append(tl, arrival{t1, HOp{Kind: "event", S: si, E: 0}})
 			tl = append(tl, arrival{t1, HOp{Kind: "event", S: si, E: 1}})
 			tl = append(tl, arrival{t2, HOp{Kind: "login", S: si}})
+			// the uncorrelated session stays active: further records arrive while it waits
+			if t2-t1 > 1 {
+				for j, nk := 0, t.Choose(4, "keepalive"); j < nk; j++ {
+					s.Events = append(s.Events, GenAction(t, k, s.Ses, pid, s.UID))
+					tl = append(tl, arrival{t1 + 1 + t.Choose(t2-t1-1, "keepalive.at"), HOp{Kind: "event", S: si, E: len(s.Events) - 1}})
+					extra[si]++
+				}
+			}
 		}
 		tl = append(tl, arrival{horizon + 1, HOp{Kind: "event", S: si, E: 2}})
 	}
@@ -425,9 +447,9 @@ func scnC16L1(rc *RunCtx) {
 		case expectCorrelated && !probe:
 			rc.Fail("C16", "kept-half-lost", "session s%d: neither half was older than any cut-off given to cleanup before the other half arrived, yet the session was not correlated (probe event not emitted; %d events emitted)", si, cnt)
 			return
-		case expectCorrelated && cnt < 3:
+		case expectCorrelated && cnt < 3+extra[si]:
 			// held events must have been released too (count only; order is C02's)
-			rc.Fail("C16", "held-events-lost", "session s%d correlated but only %d of 3 events were emitted", si, cnt)
+			rc.Fail("C16", "held-events-lost", "session s%d correlated but only %d of %d events were emitted", si, cnt, 3+extra[si])
 			return
 		case !expectCorrelated && cnt > 0:
 			rc.Fail("C16", "stale-half-kept", "session s%d: its first half was older than a cut-off given to cleanup before the second half arrived, so it must be discarded, yet %d events were emitted", si, cnt)
